@@ -934,14 +934,28 @@ pub async fn handle_connection(
             {
                 error!("Got error when writing response: {err:?}");
             }
+            // If nobody read the request body, what's left of it on a HTTP/1 socket would
+            // be read as the next request. Then, the connection can't be used again.
+            let unread_body = matches!(
+                request.body(),
+                application::Body::Http1(body) if body.unread_on_socket()
+            );
             drop(request);
+            unread_body
         };
 
         // When version is HTTP/1, we block the socket if we begin listening to it again.
         match version {
-            Version::HTTP_09 | Version::HTTP_10 | Version::HTTP_11 => future.await,
+            Version::HTTP_09 | Version::HTTP_10 | Version::HTTP_11 => {
+                if future.await {
+                    break;
+                }
+            }
             _ => {
-                let _task = spawn(future).await;
+                let _task = spawn(async move {
+                    future.await;
+                })
+                .await;
             }
         }
 
